@@ -386,8 +386,32 @@ theorem alive_sendIfMsgs (w : World) (h : Alive w) : Alive (sendIfMsgs env w) :=
   · simp only [sendPlain, sendTake, takeAll, sendFlush, sendFinish, doSend, reallyDie, driverDie, handleSocketError]
     (repeat' split) <;> simp_all
 
+omit hne in
+theorem alive_reconnect (wait : Bool) (w : World) (h : Alive w) : Alive (reconnect env wait w) := by
+  unfold reconnect
+  cases wait <;> exact ⟨h.ircZombie, h.zombie, h.removed, h.crashed⟩
+
+theorem alive_feedLines (ls : List Bytes) (w : World) (h : Alive w) : Alive (feedLines env ls w) := by
+  induction ls generalizing w with
+  | nil => exact h
+  | cons l ls ih =>
+    unfold feedLines
+    cases h' : parseMsg env.timeOk (decode l) with
+    | empty => exact ih w h
+    | malformed =>
+      simp only [hne.2.2, Bool.false_eq_true, ↓reduceIte]
+      exact ih w h
+    | crash e => exact absurd h' (parseMsg_no_crash _ _ _)
+    | msg m =>
+      simp only [hne.1 w.allFed m]
+      have hf : Alive (C11.feedMsg env m w) := ⟨h.ircZombie, h.zombie, h.removed, h.crashed⟩
+      cases env.reconnects w.allFed m with
+      | some wait => exact alive_reconnect wait _ hf
+      | none => exact ih _ hf
+
 theorem alive_readData (b : Bytes) (w : World) (h : Alive w) : Alive (readData env b w) := by
-  unfold readData; rw [feedLines_eq env hne]; exact ⟨h.ircZombie, h.zombie, h.removed, h.crashed⟩
+  unfold readData
+  exact alive_feedLines hne _ _ ⟨h.ircZombie, h.zombie, h.removed, h.crashed⟩
 
 omit hne in
 theorem alive_setRecv (w : World) (rs : List RecvRes) (h : Alive w) : Alive { w with recvScript := rs } :=
@@ -414,20 +438,25 @@ theorem alive_loop (w : World) (h : Alive w) : Alive (loop env w) := by
   unfold loop
   split
   · exact h
-  · have h1 : Alive (run env w) := by
+  · have h0 : Alive (runTimer env w) := by
+      unfold runTimer
+      split
+      · exact alive_reconnect false w h
+      · exact h
+    have h1 : Alive (run env w) := by
       unfold run
       split
-      · exact h
+      · exact h0
       · unfold select
         split
-        · exact alive_sendIfMsgs hne w h
+        · exact alive_sendIfMsgs hne _ h0
         · split
-          · exact alive_sendIfMsgs hne w h
-          · have h2 : Alive (selectRead env (sendIfMsgs env w)) := by
+          · exact alive_sendIfMsgs hne _ h0
+          · have h2 : Alive (selectRead env (sendIfMsgs env (runTimer env w))) := by
               unfold selectRead
               split
-              · exact alive_sendIfMsgs hne w h
-              · exact alive_read hne _ (alive_sendIfMsgs hne w h)
+              · exact alive_sendIfMsgs hne _ h0
+              · exact alive_read hne _ (alive_sendIfMsgs hne _ h0)
             unfold selectSend
             split
             · exact h2
@@ -455,6 +484,7 @@ theorem alive_runOps (ops : List Op) (w : World) (h : Alive w) (hn : noDie ops) 
     | scriptSend r => exact ⟨h.ircZombie, h.zombie, h.removed, h.crashed⟩
     | scriptRecv r => exact ⟨h.ircZombie, h.zombie, h.removed, h.crashed⟩
     | ircDie => exact absurd rfl (hn .ircDie (by simp))
+    | tick => exact ⟨h.ircZombie, h.zombie, h.removed, h.crashed⟩
     | loop => exact alive_loop hne w h
 
 /-! ### a PING line on a quiet connection -/
@@ -463,10 +493,11 @@ theorem alive_runOps (ops : List Op) (w : World) (h : Alive w) (hn : noDie ops) 
 theorem calm_sendIfMsgs_wire (w : World) (h : Calm w) :
     (sendIfMsgs env w).wire = w.wire ++ (w.outbuffer ++ utf8 w.queue.flatten) ∧
     (sendIfMsgs env w).outbuffer = [] ∧ (sendIfMsgs env w).queue = [] ∧
-    (sendIfMsgs env w).fed = w.fed ∧ (sendIfMsgs env w).inbuffer = w.inbuffer := by
-  obtain ⟨h1, h2, h3, h4, h5, h6⟩ := h
+    (sendIfMsgs env w).fed = w.fed ∧ (sendIfMsgs env w).inbuffer = w.inbuffer ∧
+    (sendIfMsgs env w).allFed = w.allFed := by
+  obtain ⟨h1, h2, h3, h4, h5, h6, h7⟩ := h
   rw [sendIfMsgs_eq hne]
-  refine ⟨?_, ?_, ?_, ?_, ?_⟩ <;>
+  refine ⟨?_, ?_, ?_, ?_, ?_, ?_⟩ <;>
   · simp only [sendPlain, sendTake, takeAll, sendFlush, sendFinish, doSend, reallyDie, driverDie]
     (repeat' split) <;> simp_all
 
@@ -479,50 +510,58 @@ theorem splitLF_line (l : Bytes) (h : LF ∉ l) : splitLF (l ++ [LF]) = ([l], []
     rw [List.cons_append, splitLF_cons_ne (fun hc => h.1 hc.symm), ih h.2]
 
 theorem ping_wire (w : World) (h : Calm w) (hr : w.recvScript = []) (hib : w.inbuffer = [])
-    (l : Bytes) (hl : LF ∉ l) (m : C05.Msg) (hm : lineMsg env l = some m) :
+    (l : Bytes) (hl : LF ∉ l) (m : C05.Msg) (hm : lineMsg env l = some m)
+    (hnr : ∀ hist, env.reconnects hist m = none) :
     (loop env (step env w (.scriptRecv (.data (l ++ [LF]))))).wire =
-      w.wire ++ (w.outbuffer ++ utf8 w.queue.flatten) ++ utf8 (env.react w.fed m).flatten ∧
+      w.wire ++ (w.outbuffer ++ utf8 w.queue.flatten) ++ utf8 (env.react w.allFed m).flatten ∧
     Calm (loop env (step env w (.scriptRecv (.data (l ++ [LF]))))) := by
   obtain ⟨b, bs, hc⟩ : ∃ b bs, l ++ [LF] = b :: bs := by
     cases l with
     | nil => exact ⟨LF, [], rfl⟩
     | cons x xs => exact ⟨x, xs ++ [LF], rfl⟩
   have hsplit : splitLF (b :: bs) = ([l], []) := by rw [← hc]; exact splitLF_line l hl
+  have hon : NoReconnectOn env (msgsOf env (splitLF (w.inbuffer ++ b :: bs)).1) := by
+    rw [hib]; simp only [List.nil_append]; rw [hsplit]
+    intro m' hm' hist
+    have : m' = m := by simpa [msgsOf, hm] using hm'
+    subst this; exact hnr hist
   rw [hc]
-  refine ⟨?_, (calm_chunk hne (b :: bs) (by simp) w h hr).1⟩
-  rw [loop_chunk_eq hne b bs w h hr]
+  refine ⟨?_, (calm_chunk hne (b :: bs) (by simp) w h hr hon).1⟩
+  rw [loop_chunk_eq hne b bs w h hr hon]
   have c1 := calm_setRecv w [.data (b :: bs)] h
-  obtain ⟨a1, a2, a3, a4, a5⟩ := calm_sendIfMsgs_wire hne _ c1
-  obtain ⟨c2, -, -⟩ := calm_sendIfMsgs hne _ c1
-  generalize sendIfMsgs env { w with recvScript := [.data (b :: bs)] } = w2 at a1 a2 a3 a4 a5 c2 ⊢
+  obtain ⟨a1, a2, a3, a4, a5, a6⟩ := calm_sendIfMsgs_wire hne _ c1
+  obtain ⟨c2, -, -, -⟩ := calm_sendIfMsgs hne _ c1
+  generalize sendIfMsgs env { w with recvScript := [.data (b :: bs)] } = w2 at a1 a2 a3 a4 a5 a6 c2 ⊢
   have c3 := calm_setRecv w2 [] c2
   have k1 : ({ w2 with recvScript := [] } : World).wire = w2.wire := rfl
   have k2 : ({ w2 with recvScript := [] } : World).outbuffer = w2.outbuffer := rfl
   have k3 : ({ w2 with recvScript := [] } : World).queue = w2.queue := rfl
-  have k4 : ({ w2 with recvScript := [] } : World).fed = w2.fed := rfl
+  have k4 : ({ w2 with recvScript := [] } : World).allFed = w2.allFed := rfl
   have k5 : ({ w2 with recvScript := [] } : World).inbuffer = w2.inbuffer := rfl
   have k6 : ({ w2 with recvScript := [] } : World).ircZombie = w2.ircZombie := rfl
   generalize ({ w2 with recvScript := [] } : World) = w3 at c3 k1 k2 k3 k4 k5 k6 ⊢
-  obtain ⟨c4, -, -⟩ := calm_readData hne (b :: bs) w3 c3
+  have hon3 : NoReconnectOn env (msgsOf env (splitLF (w3.inbuffer ++ b :: bs)).1) := by
+    rw [k5, a5]; exact hon
+  obtain ⟨c4, -, -⟩ := calm_readData hne (b :: bs) w3 c3 hon3
   have hw : (readData env (b :: bs) w3).wire = w3.wire := by
-    unfold readData; rw [feedLines_eq env hne]
+    unfold readData; rw [feedLines_eq env hne _ _ hon3]
   have hob : (readData env (b :: bs) w3).outbuffer = w3.outbuffer := by
-    unfold readData; rw [feedLines_eq env hne]
-  have hq : (readData env (b :: bs) w3).queue = env.react w.fed m := by
+    unfold readData; rw [feedLines_eq env hne _ _ hon3]
+  have hq : (readData env (b :: bs) w3).queue = env.react w.allFed m := by
     unfold readData
-    rw [feedLines_eq env hne]
-    show w3.queue ++ reactsOf env w3.ircZombie w3.fed (splitLF (w3.inbuffer ++ (b :: bs))).1 = _
-    rw [k3, a3, k6, c2.ircZombie, k4, a4, k5, a5]
-    show [] ++ reactsOf env false w.fed (splitLF (w.inbuffer ++ (b :: bs))).1 = _
+    rw [feedLines_eq env hne _ _ hon3]
+    show w3.queue ++ reactsOf env w3.ircZombie w3.allFed (splitLF (w3.inbuffer ++ (b :: bs))).1 = _
+    rw [k3, a3, k6, c2.ircZombie, k4, a6, k5, a5]
+    show [] ++ reactsOf env false w.allFed (splitLF (w.inbuffer ++ (b :: bs))).1 = _
     rw [hib]
     simp only [List.nil_append]
     rw [hsplit]
     simp [reactsOf, msgsOf, hm, reactsFrom]
   generalize readData env (b :: bs) w3 = w4 at c4 hw hob hq ⊢
-  obtain ⟨d1, d2, d3, -, -⟩ := calm_sendIfMsgs_wire hne w4 c4
-  obtain ⟨c5, -, -⟩ := calm_sendIfMsgs hne w4 c4
+  obtain ⟨d1, d2, d3, -, -, -⟩ := calm_sendIfMsgs_wire hne w4 c4
+  obtain ⟨c5, -, -, -⟩ := calm_sendIfMsgs hne w4 c4
   generalize sendIfMsgs env w4 = w5 at d1 d2 d3 c5 ⊢
-  obtain ⟨e1, -, -, -, -⟩ := calm_sendIfMsgs_wire hne w5 c5
+  obtain ⟨e1, -, -, -, -, -⟩ := calm_sendIfMsgs_wire hne w5 c5
   rw [e1, d2, d3, d1, hw, hob, hq, k1, k2, a1, a2]
   simp [utf8_nil]
 
